@@ -566,7 +566,7 @@ func init() {
 			"reference well-typedness is Go assignability (reflect.Type.AssignableTo) plus: untyped nil is accepted exactly by nilable kinds",
 		},
 		Families: []core.Family{
-			{Name: "random", N: core.TierN(200, 2000), Batch: 10, Run: c19Random},
+			{Name: "random", N: core.TierN(200, 8000), Batch: 10, Run: c19Random},
 			{Name: "enum-small", N: core.TierN(1, 1), Solo: true, Run: c19Enum},
 			{Name: "nil-directed", N: core.TierN(1, 1), Solo: true, Run: c19NilHuge},
 			{Name: "huge-variadic", N: core.TierN(1, 1), Solo: true, Run: c19Huge},
